@@ -29,12 +29,24 @@ def impl(py):
             fr = fr.f_back
         return n
 
+    other = {"live": {}, "peak": 0, "name": None}     # re-entrancy of vpsc.py code that is NOT a Block method
+
     def prof(frame, event, arg):
         co = frame.f_code
         if co.co_filename.rstrip("c") != vfile:
             return
         slf = frame.f_locals.get("self")
         if not isinstance(slf, V.Block):
+            # closures, Variable / Solver methods, module functions: only their re-entrancy is
+            # recorded; it must not exceed that of the Block methods that drive them (else a
+            # traversal recurses somewhere this tie cannot bound by a block size)
+            if event == "call":
+                d = other["live"].get(co, 0) + 1
+                other["live"][co] = d
+                if d > other["peak"]:
+                    other["peak"], other["name"] = d, co.co_name
+            elif event == "return" and other["live"].get(co, 0) > 0:
+                other["live"][co] -= 1
             return
         if event == "call":
             d = live.get(co, 0) + 1
@@ -53,11 +65,13 @@ def impl(py):
             if d == 0:
                 return
             live[co] = d - 1
-            if d == 1:
-                # the bound: the size of the block of the OUTERMOST activation when it returns
-                # (populateSplitBlock fills its block as it goes)
+            if d == 1 and peak[co] >= 2:
+                # a RECURSIVE Block method.  The bound: the size of the block of the outermost
+                # activation when it returns (populateSplitBlock fills its block as it goes)
                 sz = len(slf.vars)
-                slack = 1 if co.co_name == "isActiveDirectedPathBetween" else 0   # the call that finds u == v
+                # isActiveDirectedPathBetween tests u == v before it recurses: one more activation
+                # than levels of fuel in the model (C11_depth_directed_path is stated with that +1)
+                slack = 1 if co.co_name == "isActiveDirectedPathBetween" else 0
                 ex = peak[co] - sz - slack
                 if worst["excess"] is None or ex > worst["excess"]:
                     worst["excess"] = ex
@@ -82,6 +96,8 @@ def impl(py):
     finally:
         sys.setprofile(None)
     out.update(worst)
+    out["other_peak"] = other["peak"]
+    out["other_name"] = other["name"]
     return out
 
 
@@ -146,6 +162,13 @@ def compare(case, io, mo):
     if io.get("excess") is not None and io["excess"] > 0:
         return ("recursion deeper than the block is large (theorems C11_depth_*): %s nested %d deep in a block of %d variables"
                 % tuple(io.get("at", ["?", io.get("depth"), io.get("block")])))
+    # not vacuous: code of vpsc.py that is not a Block method must not recurse deeper than the Block
+    # methods driving it (+1 for the closure called from the innermost level); otherwise a traversal
+    # lives where this tie cannot relate it to a block size
+    if io.get("other_peak", 0) > max(io.get("depth", 0), 1) + 1:
+        return ("%s re-enters %d deep while no vpsc.Block method recurses deeper than %d: the traversals are not Block "
+                "methods any more and their depth cannot be related to a block size"
+                % (io.get("other_name"), io["other_peak"], io.get("depth", 0)))
     return None
 
 
